@@ -25,6 +25,7 @@
 #include "syntax/Lexeme_ALL.h"
 #include "syntax/SyntaxNodes.h"
 
+#include <cctype>
 #include <iostream>
 
 using namespace psy;
@@ -41,7 +42,30 @@ void Unparser::terminal(const SyntaxToken& tk, const SyntaxNode*)
     if (tk.kind() == SyntaxKind::EndOfFile)
         return;
 
-    *os_ << tk.valueText_c_str();
+    // A keyword or punctuator with several spellings (`typeof', `__typeof__';
+    // `asm', `__asm__'; `[', `<:'; ...) is written as the source spells it:
+    // the other spellings need not be tokens under the same options.
+    bool written = false;
+    if (tk.category() != SyntaxToken::Category::Identifiers
+            && tk.category() != SyntaxToken::Category::Constants
+            && tk.category() != SyntaxToken::Category::StringLiterals
+            && !tk.isMissing()
+            && !tk.isPPExpanded()
+            && !tk.isPPGenerated()) {
+        const std::string& raw = tree_->text().rawText();
+        if (tk.byteStart() < tk.byteEnd() && tk.byteEnd() <= raw.size()) {
+            auto src = raw.substr(tk.byteStart(), tk.byteEnd() - tk.byteStart());
+            bool isPlain = true;
+            for (unsigned char ch : src)
+                isPlain = isPlain && std::isgraph(ch) && ch != '\\' && ch != '?';
+            if (isPlain) {
+                *os_ << src;
+                written = true;
+            }
+        }
+    }
+    if (!written)
+        *os_ << tk.valueText_c_str();
 
     if (tk.kind() == SyntaxKind::CloseBraceToken
             || tk.kind() == SyntaxKind::OpenBraceToken
